@@ -378,8 +378,11 @@ static void wait_all_finished(void) {
     int all = 1;
     for (int i = 1; i < nn; i++) if (!N[i].finished) { all = 0; break; }
     if (all) break;
+    /* serve our own run queue, then wait for somebody else to make progress.  (Not mvsim_quiesce():
+       that parks this worker until all others idle, but unfinished threads may sit in THIS worker's
+       queue while the other workers poll for them in timedjoin/tryjoin loops for ever.) */
     myth_yield_ex(myth_yield_option_local_first);
-    mvsim_quiesce();
+    mvsim_user_spin();
   }
   mvsim_quiesce();
 }
